@@ -314,3 +314,12 @@ def c18_math_pow(tier="quick", seed=0):
         o["finding_key"] = o["id"]
         out.append(o)
     return out
+
+
+# ---- fixed probes (regressions of repaired defects; known deviations are listed in /verif/known_findings.json) ---------------
+PROBES_C18 = [
+    ("parseInt-very-long", "[parseInt('1'.repeat(5000)), parseInt('-' + '9'.repeat(400)), parseInt('0'.repeat(5000) + '12'), parseInt('f'.repeat(2000), 16), parseInt('1'.repeat(1024), 2)].join()", "Infinity,-Infinity,12,Infinity,Infinity"),
+    ("long-radix-string", "[+('0x' + 'f'.repeat(300)), Number('0b' + '1'.repeat(1100)), ('0x' + 'f'.repeat(300)) | 0].join()", "Infinity,Infinity,0"),
+    ("cbrt", "[Math.cbrt(27), Math.cbrt(1e300), Math.cbrt(-8), 1 / Math.cbrt(-0), Math.cbrt(1e-300)].join()", "3,1e+100,-2,-Infinity,1e-100"),
+]
+groups.register_probes("C18", PROBES_C18)
